@@ -424,7 +424,12 @@ class _NP(object):
             obj = _none_to_nan(obj)
         return SArr.from_nested(obj, d)
 
-    asarray = array
+    @staticmethod
+    def asarray(obj, dtype=None):
+        # numpy.asarray does NOT copy an array that already has the requested dtype
+        if isinstance(obj, SArr) and (dtype is None or arr._dtype_code(dtype) == obj.dtype):
+            return obj
+        return _NP.array(obj, dtype)
 
     @staticmethod
     def copy(a):
